@@ -16,6 +16,7 @@
 EXTENDS Naturals, Sequences, FiniteSets, TLC
 
 CONSTANTS Headers,     \* set of header positions to explore
+          Tails,       \* how the bytes before the header end: "plain", or with a proper prefix of the marker ("%", "%P", "%PD", "%PDF")
           Kinds,       \* file kinds: "classic", "xrefstm", "prev2" (two revisions), "objstm"
           Consumers,   \* {"startxref", "prev", "entry", "streamdata", "scan"}
           Dev          \* subset of {<<"ignores_header", c>>}
@@ -27,12 +28,12 @@ RelXref1 == 120       \* first (oldest) xref section
 RelXref2 == 200       \* second section (kind "prev2" only); its /Prev is RelXref1
 RelEnd(kind) == IF kind = "prev2" THEN 260 ELSE 180    \* where startxref ... %%EOF sits
 
-VARIABLES h, kind,
+VARIABLES h, kind, tail,
           pc,          \* "open" | "prev" | "entries" | "stream" | "scan" | "done"
           at,          \* consumer -> absolute position it arrived at (0 = not run)
           ok           \* all consumers so far arrived where they should
 
-vars == <<h, kind, pc, at, ok>>
+vars == <<h, kind, tail, pc, at, ok>>
 
 Ignores(c) == <<"ignores_header", c>> \in Dev
 Abs(c, rel) == IF Ignores(c) THEN rel ELSE h + rel
@@ -40,12 +41,16 @@ Abs(c, rel) == IF Ignores(c) THEN rel ELSE h + rel
 Newest == IF kind = "prev2" THEN RelXref2 ELSE RelXref1
 
 \* backend.rs read_xref_table_and_trailer: startxref value -> position of the newest section
+\* backend.rs locate_start_offset: the first occurrence of the five marker bytes within the first kilobyte.  A search that
+\* does not restart a partial match at the current byte misses a marker that directly follows a proper prefix of itself
+HeaderFound == ~(<<"naive_header_search", "header">> \in Dev /\ tail # "plain")
+
 Open ==
   /\ pc = "open"
   /\ at' = [at EXCEPT !["startxref"] = Abs("startxref", Newest)]
-  /\ ok' = (ok /\ Abs("startxref", Newest) = h + Newest)
+  /\ ok' = (ok /\ HeaderFound /\ Abs("startxref", Newest) = h + Newest)
   /\ pc' = IF kind = "prev2" THEN "prev" ELSE "entries"
-  /\ UNCHANGED <<h, kind>>
+  /\ UNCHANGED <<h, kind, tail>>
 
 \* following /Prev
 FollowPrev ==
@@ -53,7 +58,7 @@ FollowPrev ==
   /\ at' = [at EXCEPT !["prev"] = Abs("prev", RelXref1)]
   /\ ok' = (ok /\ Abs("prev", RelXref1) = h + RelXref1)
   /\ pc' = "entries"
-  /\ UNCHANGED <<h, kind>>
+  /\ UNCHANGED <<h, kind, tail>>
 
 \* file.rs resolve_ref: in-use entry -> position of `n g obj`
 ReadEntry ==
@@ -61,7 +66,7 @@ ReadEntry ==
   /\ at' = [at EXCEPT !["entry"] = Abs("entry", RelObj)]
   /\ ok' = (ok /\ Abs("entry", RelObj) = h + RelObj)
   /\ pc' = "stream"
-  /\ UNCHANGED <<h, kind>>
+  /\ UNCHANGED <<h, kind, tail>>
 
 \* stream data: the range recorded while parsing the stream object is used to read the data later
 ReadStream ==
@@ -71,7 +76,7 @@ ReadStream ==
      IN /\ at' = [at EXCEPT !["streamdata"] = datapos]
         /\ ok' = (ok /\ datapos = h + RelStm + 30)
   /\ pc' = "scan"
-  /\ UNCHANGED <<h, kind>>
+  /\ UNCHANGED <<h, kind, tail>>
 
 \* file.rs scan: the bytes from the header up to the newest xref section
 Scan ==
@@ -80,10 +85,11 @@ Scan ==
      /\ at' = [at EXCEPT !["scan"] = endpos]
      /\ ok' = (ok /\ endpos = h + Newest)
   /\ pc' = "done"
-  /\ UNCHANGED <<h, kind>>
+  /\ UNCHANGED <<h, kind, tail>>
 
 Init ==
   /\ h \in Headers /\ kind \in Kinds
+  /\ tail \in Tails /\ (h < 4 => tail = "plain")
   /\ pc = "open"
   /\ at = [c \in Consumers |-> 0]
   /\ ok = TRUE
